@@ -67,7 +67,7 @@ def base_cases(tier, rng, json_layer):
 
 
 def make(rng, shape, json_layer):
-    cls = rng.choice(["anynode", "anynode", "node", "mixin"])
+    cls = rng.choice(["anynode", "anynode", "node", "mixin", "strict"])
     need_name = cls == "node" or (cls != "node" and False)
     t = atree(shape, rng, cls == "node")
     h = shape_height(shape)
@@ -101,7 +101,8 @@ def make(rng, shape, json_layer):
             c["maxlevel"] = jmax
             c["defaults"] = True
         else:
-            c["maxlevel"] = jmax if jmax is not None else c["maxlevel"]
+            c["dictmaxlevel"] = c["maxlevel"]        # the custom dictexporter's own maxlevel …
+            c["maxlevel"] = jmax if jmax is not None else c["maxlevel"]   # … is overridden by the JSON exporter's
             c["defaults"] = False
     return c
 
